@@ -74,7 +74,8 @@ def run(ctx):
         judge(ctx, f, a, origin if r is None else dict(origin=origin, yaml=r["yaml"], mode=r["mode"]))
         if len(ctx.samples) < 3 and f["sorted0"] != f["sorted1"]:
             ctx.sample({"origin": origin, "before": [f["nodes"][i] for i in f["sorted0"]][:12], "after": [f["nodes"][i] for i in f["sorted1"]][:12]})
-    # def-use dependences of the emitted statements (shared with C06)
+    # def-use dependences of the emitted statements (shared with C06, including its known findings)
+    ctx.findings = ctx.findings + common.load_findings("C06")
     c06.check_records(ctx, [r for r in recs if r["ok"]])
 
 
